@@ -3314,7 +3314,10 @@ XPath::stepPattern(
 
             // Only an attribute can be selected by a step on the attribute axis,
             // whatever the node test is (e.g. @node()).
-            if (context->getNodeType() == XalanNode::ATTRIBUTE_NODE)
+            // A namespace declaration is an attribute node of the DOM, but not
+            // an attribute of the data model: the attribute axis never delivers it.
+            if (context->getNodeType() == XalanNode::ATTRIBUTE_NODE &&
+                DOMServices::isNamespaceDeclaration(static_cast<const XalanAttr&>(*context)) == false)
             {
                 score = NodeTester(
                             *this,
